@@ -182,16 +182,25 @@ func documentLinesVerbatim(r *core.Run) {
 			return
 		}
 		ast.Inspect(fd.Body, func(nd ast.Node) bool {
-			cl, ok := nd.(*ast.CompositeLit)
-			if !ok || !strings.HasSuffix(core.TypeStr(info.TypeOf(cl)), "parser.lineSet") {
-				return true
+			var v ast.Expr
+			switch x := nd.(type) {
+			case *ast.CompositeLit:
+				if strings.HasSuffix(core.TypeStr(info.TypeOf(x)), "parser.lineSet") {
+					v = litKey(x, "lines")
+				}
+			case *ast.AssignStmt:
+				// `ls.lines = strings.Split(input, "\n")`
+				if len(x.Lhs) == 1 && len(x.Rhs) == 1 {
+					if sel, ok := core.Unparen(x.Lhs[0]).(*ast.SelectorExpr); ok && sel.Sel.Name == "lines" && strings.HasSuffix(core.TypeStr(info.TypeOf(sel.X)), "parser.lineSet") {
+						v = x.Rhs[0]
+					}
+				}
 			}
-			v := litKey(cl, "lines")
 			if v == nil {
 				return true
 			}
 			n++
-			o := r.Add("R-CONST/lines", parserRel+"."+core.FuncName(fd)+" | lines of the document", cl.Pos(), "lines the edits are compared with")
+			o := r.Add("R-CONST/lines", parserRel+"."+core.FuncName(fd)+" | lines of the document", nd.Pos(), "lines the edits are compared with")
 			src := core.Unparen(v)
 			var local types.Object
 			if id, ok := src.(*ast.Ident); ok {
